@@ -9,6 +9,7 @@
 //   gb <xBorder> <yBorder>           borders in force for the generate* calls
 //   rb <xBorder> <yBorder>           borders in force when removeoverlaps is called
 //   r <minX> <maxX> <minY> <maxY>    raw fields (n lines)
+//   vid <id0> <id1> ...              distinct variable ids given to generate* (constraints name ids)
 //   fixed <i> ...                    (possibly empty)
 //   third <0|1>
 //   cy|cx0|cx1 <left id> <right id> <gap>      one line per generated constraint
@@ -33,6 +34,7 @@ struct CaseIn {
     double rbx = 0, rby = 0;   // borders for removeoverlaps
     std::set<unsigned> fixed;
     bool third = false;
+    std::vector<int> vid;      // distinct variable ids handed to generate*Constraints
 };
 
 // dyadic value k/2^j
@@ -151,6 +153,13 @@ static CaseIn genCase(uint64_t seed, long k, bool thorough) {
     c.gby = bvals[r.range(0, 6)];
     if (r.coin(1, 4)) { c.rbx = bvals[r.range(0, 6)]; c.rby = bvals[r.range(0, 6)]; }
     c.third = r.coin();
+    // variable ids for the generate* calls: the index, or (every other case) a random set of
+    // distinct ids in random order - CmpNodePos breaks ties between equal centres by variable id
+    for (long i = 0; i < n; ++i) c.vid.push_back((int) i);
+    if (r.coin()) {
+        for (long i = 0; i < n; ++i) c.vid[i] = (int) (3 * i + r.range(0, 2));
+        r.shuffle(c.vid);
+    }
     // fixed subset.  "fixed" is only a weight of 10000 against 1 in the code, so
     //  * two fixed rectangles that end up in one chain are pushed apart (fixedsq, multifixed),
     //  * a single fixed rectangle inside a large cluster drifts by (cluster size x extent)/10000
@@ -194,7 +203,9 @@ static void runCase(long k, const CaseIn &c) {
     for (size_t i = 0; i < n; ++i)
         printf("r %s %s %s %s\n", vh::hx(c.rs[i].x).c_str(), vh::hx(c.rs[i].X).c_str(),
                vh::hx(c.rs[i].y).c_str(), vh::hx(c.rs[i].Y).c_str());
-    printf("fixed");
+    printf("vid");
+    for (size_t i = 0; i < n; ++i) printf(" %d", c.vid[i]);
+    printf("\nfixed");
     for (std::set<unsigned>::const_iterator f = c.fixed.begin(); f != c.fixed.end(); ++f) printf(" %u", *f);
     printf("\nthird %d\n", (int) c.third);
     fflush(stdout);
@@ -205,7 +216,7 @@ static void runCase(long k, const CaseIn &c) {
     Variables vs;
     for (size_t i = 0; i < n; ++i) {
         rs.push_back(new Rectangle(c.rs[i].x, c.rs[i].X, c.rs[i].y, c.rs[i].Y));
-        vs.push_back(new Variable((int) i));
+        vs.push_back(new Variable(c.vid[i]));
     }
     // --- constraint generation under the case's borders
     Rectangle::setXBorder(c.gbx);
